@@ -81,6 +81,8 @@ class Ops:
       return SV(sort, z3.Function('kwarg_true' if v else 'kwarg_false', sort.z3())())
     if v is NONEV and isinstance(sort, Opaque) and sort.nullable:
       return SV(sort, sort.literal(None))
+    if isinstance(v, PyTuple) and len(v) == 0 and isinstance(sort, Opaque) and not sort.is_str:
+      return SV(sort, sort.literal(()))      # the empty tuple as a distinguished value
     if isinstance(v, FString) and isinstance(sort, Opaque):
       return self.fresh(sort, 'fstring')   # formatted text (messages): an unconstrained string
     if isinstance(v, Lit):
@@ -253,7 +255,8 @@ class Ops:
       if isinstance(s, Opaque):
         if getattr(s, 'truthy', None) is not None:
           return s.truthy(v.t)
-        raise OutsideSubset(f'truthiness of opaque sort {s}')
+        # bool(x) of a value the model says nothing about: an uninterpreted predicate (nothing assumed)
+        return z3.Function(f'truthy!{s.name}', s.z3(), z3.BoolSort())(v.t)
     raise OutsideSubset(f'truthiness of {v!r}')
 
   def py_eq(self, a, b):
@@ -423,6 +426,8 @@ class Ops:
       U = v.sort
       hits = [U.is_(c.name, v.t) for c in U.ctors.values() if names & set(c.pytypes)]
       return z3.Or(*hits) if hits else zbool(False)
+    if isinstance(v, SV) and getattr(v.sort, 'isinstance_hook', None):
+      return v.sort.isinstance_hook(self, v, names)     # symbolic class membership of an arbitrary object
     if isinstance(v, SV) and isinstance(v.sort, Opaque) and v.sort.nullable and v.sort.is_str:
       is_none = v.t == v.sort.literal(None)
       strs = {'str', 'typing.Collection', 'Collection'}
